@@ -43,12 +43,12 @@ def ff_cases(draw):
         levels = []
         prod = 1
         for _ in range(d):
-            cap = max(1, min(6, 5000 // prod))
+            cap = max(1, min(9, 5000 // prod))
             lv = draw(st.lists(levelval, min_size=1, max_size=cap, unique=True))
             prod *= len(lv)
             levels.append(lv)
         return {"kind": kind, "levels": levels}
-    d = draw(st.integers(1, 6))
+    d = draw(st.integers(1, 7 if kind == "centre" else 6))
     return {"kind": kind, "boxes": [draw(box12()) for _ in range(d)]}
 
 
